@@ -17,7 +17,7 @@ BUILTIN_FUNCS = {
     'len': 'n', 'isinstance': 'n', 'issubclass': 'n', 'callable': 'n', 'hasattr': 'n', 'getattr': 'n', 'type': 'n',
     'list': 'n', 'dict': 'n', 'tuple': 'n', 'set': 'n', 'frozenset': 'n', 'sorted': 'n', 'reversed': 'n',
     'enumerate': 'n', 'range': 'n', 'zip': 'n', 'any': 'n', 'all': 'n', 'next': 'n', 'repr': 'n', 'str': 'n',
-    'bytes': 'n', 'int': 'n', 'float': 'n', 'bool': 'n', 'min': 'n', 'max': 'n', 'sum': 'n', 'abs': 'n',
+    'bytes': 'n', 'int': ['ValueError', 'TypeError'], 'float': ['ValueError', 'TypeError'], 'bool': 'n', 'min': 'n', 'max': 'n', 'sum': 'n', 'abs': 'n',
     'super': 'n', 'id': 'n', 'hash': 'n', 'print': 'n', 'property': 'n', 'staticmethod': 'n', 'map': 'n',
     'filter': 'n', 'format': 'n', 'unicode': 'n', 'object': 'n',
     'iter': ['TypeError'], 'open': ['OSError'],
